@@ -171,7 +171,14 @@ structure Cfg where
   durationUs : Nat
   oti : Oti                        -- session default OTI
   groups : Option (List String)
-  deriving Repr, Inhabited
+  toiBits : Nat := 112             -- `toi_max_length`: 16 / 32 / 48 / 64 / 80 / 112
+  toiInit : Nat := 1               -- `toi_initial_value = Some(n)`
+  /-- admission of the FDT object itself: does `FileDesc::new` accept the serialised (and `fdt_cenc`-compressed)
+      instance under the session default OTI (transfer length <= `max_transfer_length`, Reed-Solomon block limits,
+      RaptorQ/Raptor block count)?  The byte length is the XML library's, so this is an explicit parameter - every
+      theorem holds for every such function; the correspondence feeds the observed outcome. -/
+  fdtFits : AbsFdt → Bool := fun _ => true
+  deriving Inhabited
 
 /-- `FileDesc` + the two `TransferInfo` fields that decide about FDT membership -/
 structure FileDesc where
@@ -197,12 +204,23 @@ structure State where
   files : List FileDesc            -- the `files` HashMap, in insertion order (keys are unique, see `Lemmas`)
   queue : List Pub                 -- `fdt_transfer_queue`
   current : Option Pub             -- `current_fdt_transfer`
-  nextToi : Nat                    -- ToiAllocator (`toi_initial_value = Some(1)`, 112 bit): a counter
-  deriving Repr, Inhabited
+  nextToi : Nat                    -- ToiAllocator: a counter masked to `toi_max_length` bits that skips 0
+                                   -- (its skipping of still-reserved TOIs after a wrap is C15's, not modelled)
+  deriving Inhabited
+
+/-- `ToiAllocatorInternal::new`: `Some(0)` -> 1, masked to the width, 0 (the FDT's TOI) -> 1 -/
+def firstToi (bits init : Nat) : Nat :=
+  let t := (if init = 0 then 1 else init) % 2^bits
+  if t = 0 then 1 else t
+
+/-- `ToiAllocatorInternal::allocate`: next value, masked, skipping 0 -/
+def succToi (bits t : Nat) : Nat :=
+  let n := (t + 1) % 2^bits
+  if n = 0 then 1 else n
 
 def init (cfg : Cfg) : State :=
   { cfg := cfg, fdtid := cfg.startId, complete := none, lastPublish := none, files := [], queue := [],
-    current := none, nextToi := 1 }
+    current := none, nextToi := firstToi cfg.toiBits cfg.toiInit }
 
 /-! ## building an instance (`get_fdt_instance`, `to_file_xml`) -/
 
@@ -260,12 +278,16 @@ def instanceAt (s : State) (now : Nat) : AbsFdt :=
 
 /-! ## operations -/
 
-/-- `Fdt::publish(now)`: instance built from the live files, queued with the current id; id incremented
-    with the 20-bit mask; `last_publish` set.  (The FDT object itself always fits the default OTI here -
-    an assumption of the correspondence; `to_xml` failing is not modelled.) -/
+/-- the successful path of `Fdt::publish(now)`: instance built from the live files, queued with the current id; id
+    incremented with the 20-bit mask; `last_publish` set (`to_xml` failing is not modelled) -/
 def publish (s : State) (now : Nat) : State × Pub :=
   let p : Pub := { id := s.fdtid, time := now, inst := instanceAt s now }
   ({ s with queue := s.queue ++ [p], fdtid := (s.fdtid + 1) % 2^20, lastPublish := some now }, p)
+
+/-- `Fdt::publish(now)`: when `FileDesc::new` refuses the FDT object (`?` before anything is changed) the call returns
+    `Err` and the sender is exactly as before: nothing queued, id not consumed, `last_publish` untouched -/
+def tryPublish (s : State) (now : Nat) : State × List Pub :=
+  if s.cfg.fdtFits (instanceAt s now) then ((publish s now).1, [(publish s now).2]) else (s, [])
 
 /-- `Fdt::current_fdt_will_expire(now)` -/
 def needRepublish (s : State) (now : Nat) : Bool :=
@@ -342,7 +364,7 @@ def effectiveOti (dflt : Oti) (a : ObjAttrs) : Rs (Option Oti) :=
 def add (s : State) (a : ObjAttrs) : State × AddRes :=
   if s.complete = some true then (s, .err) else
   let toi := s.nextToi
-  let s1 := { s with nextToi := s.nextToi + 1 }
+  let s1 := { s with nextToi := succToi s.cfg.toiBits s.nextToi }
   match effectiveOti s.cfg.oti a with
   | .error _ => (s1, .panic)
   | .ok none => (s1, .err)
@@ -372,7 +394,7 @@ def tstart (s : State) (toi : Nat) (now : Nat) : State × List Pub :=
   if s.files.any (fun f => f.toi = toi) then
     let s1 := { s with files := s.files.map (fStart toi) }
     match s.cfg.mode with
-    | .beingTransferred => let r := publish s1 now; (r.1, [r.2])
+    | .beingTransferred => tryPublish s1 now            -- `self.publish(now).ok()`: a refusal is ignored
     | .fullFdt => (s1, [])
   else (s, [])
 
@@ -400,8 +422,8 @@ def popQueue (s : State) : State :=
     instance is about to expire, then take the next queued instance as the current one -/
 def poll (s : State) (now : Nat) : State × List Pub :=
   if needRepublish s now then
-    let r := publish s now
-    (popQueue r.1, [r.2])
+    let r := tryPublish s now                          -- `self.publish(now).ok()`: a refusal is ignored
+    (popQueue r.1, r.2)
   else (popQueue s, [])
 
 inductive Op where
@@ -418,6 +440,7 @@ inductive Op where
 inductive Res where
   | added (r : AddRes)
   | removed (b : Bool)
+  | published (ok : Bool)
   | unit
   deriving DecidableEq, Repr, Inhabited
 
@@ -426,7 +449,7 @@ def step (s : State) (op : Op) : State × List Pub × Res :=
   match op with
   | .add a => let r := add s a; (r.1, [], .added r.2)
   | .remove t => let r := remove s t; (r.1, [], .removed r.2)
-  | .publish now => let r := publish s now; (r.1, [r.2], .unit)
+  | .publish now => let r := tryPublish s now; (r.1, r.2, .published (!r.2.isEmpty))
   | .setComplete => (setComplete s, [], .unit)
   | .tstart t now => let r := tstart s t now; (r.1, r.2, .unit)
   | .tdone t _ => (tdone s t, [], .unit)
@@ -447,6 +470,10 @@ def trace (s : State) : List Op → List (Op × Res)
 
 /-! ## receiver side (fdtinstance.rs `get_oti`, `get_transfer_length`, `get_object_cache_control`,
     `get_expiration_date`; objectreceiver.rs `attach_fdt` / `create_meta`) -/
+
+/-- `FdtInstance::get_file(toi)`: the first File entry whose TOI attribute is the decimal string of `toi`
+    (the sender writes `toi.to_string()`, so string equality is equality of the numbers) -/
+def getFile (fdt : AbsFdt) (toi : Nat) : Option AFile := fdt.files.find? (fun f => f.toi = toi)
 
 /-- decode `FEC-OTI-Scheme-Specific-Info` bytes for an encoding id (`*_scheme_specific(..).unwrap_or(None)`) -/
 def decodeScheme (enc : Nat) (ssi : Option (List Nat)) : Option Scheme :=
